@@ -21,11 +21,23 @@ def run(ctx):
                          'ignoring the verbatim text), also with RequirementOrigin values attached; non-trivial = distinct unordered pairs of different non-constant diagrams')
     sess = markers.Session(h)
     keys = markers.Keys(sess.p)
+    # first of all, while the arena is empty: for every kind of node two markers that differ in a child only, the structurally GREATER one
+    # interned first (an order that looks at node ids instead of the children then disagrees with the structural order)
+    early = []
+    for hi_, lo_ in (("'x' in os_name and extra == 'q'", "'x' in os_name and extra == 'p'"), ("os_name in 'x y' and extra == 'q'", "os_name in 'x y' and extra == 'p'"),
+                     ("extra == 'e' and sys_platform == 'q'", "extra == 'e' and sys_platform == 'p'"), ("os_name == 'k' and 'q' in platform_machine", "os_name == 'k' and 'p' in platform_machine"),
+                     ("python_full_version >= '3.8' and platform_system == 'q'", "python_full_version >= '3.8' and platform_system == 'p'"),
+                     ("'gnu' in platform_version and extra == 'c'", "'gnu' in platform_version and (extra == 'a' or extra == 'b')")):
+        rh, _ = sess.parse(hi_)
+        rl, _ = sess.parse(lo_)
+        if rh is not None and rl is not None:
+            early.append((rh, rl))
     regs, _ = c02.build_history(ctx, sess, 150 if quick else 500, 250 if quick else 1200)
     c20.extend_history(ctx, sess, regs, 60 if quick else 300)
     # near misses: markers that differ in exactly one place (the value of an `in` / `contains` / extra / == node, one child, one bound):
     # the pairs a comparison that skips a field cannot tell apart
-    fam = []
+    fam = list(early)
+    regs += [r_ for pr in early for r_ in pr]
     for a_, b_ in [("extra == 'a b'", "extra == 'c d'"), ("extra != 'a b'", "extra != 'c d'"), ("extra == 'a b' and os_name == 'posix'", "extra == 'c d' and os_name == 'posix'"),
                    ("os.name == 'posix'", "os_name == 'posix'"), ("sys.platform == 'linux'", "sys_platform == 'linux'"), ("platform.machine < 'x86_64'", "platform_machine < 'x86_64'"),
                    ("'Ubuntu' in platform.version", "'Ubuntu' in platform_version"), ("platform.version in 'Ubuntu Debian'", "platform_version in 'Ubuntu Debian'"),
